@@ -127,6 +127,7 @@ type World struct {
 	declared map[string]bool
 	randFixed bool
 	schedFull bool
+	yieldUnderLock bool
 }
 
 func (w *World) newObj(v Val, t types.Type) *Obj { w.nobj++; return &Obj{v: v, id: w.nobj, typ: t} }
